@@ -242,6 +242,56 @@ export async function run(ctx) {
     }
   }
 
+  // named types registered at run time (createNamedType / overrideNamedType): a digest is a function
+  // of the CURRENT structure - a parser hashed before an override reports, after it, what a parser
+  // built after the override reports; and when the override changes what is accepted, the digest moves
+  if (ctx.shard === 1 % ctx.of) {
+    const { b, buntyped, createNamedType, overrideNamedType } = client;
+    const bodies = [
+      ["string", () => b.String(), "s"],
+      ["number", () => b.Number(), 1],
+      ["obj-a", () => b.Object({ a: b.String() }), { a: "x" }],
+      ["obj-b", () => b.Object({ b: b.Number() }), { b: 1 }],
+      ["arr", () => b.Array(b.Boolean()), [true]],
+      ["const", () => b.Const("k"), "k"],
+      ["any", () => b.Any(), Symbol.for("any")],
+      ["union", () => buntyped.Union(b.String(), b.Null()), null],
+    ];
+    const holders = [
+      ["self", (T) => T],
+      ["object", (T) => b.Object({ t: T, n: b.Number() })],
+      ["array", (T) => b.Array(T)],
+      ["union", (T) => buntyped.Union(T, b.Const(false))],
+      ["nested", (T) => b.Object({ list: b.Array(b.Object({ inner: T })) })],
+    ];
+    let serial = 0;
+    for (const [n1, mk1, w1] of bodies)
+      for (const [n2, mk2, w2] of bodies)
+        for (const early of [true, false]) {
+          const name = `C13_named_${ctx.seed}_${serial++}`;
+          const T = createNamedType(name, mk1());
+          const old = holders.map(([, h]) => h(T));
+          const before = early ? old.map((p) => [p.hash256(), p.hash()]) : null;
+          overrideNamedType(name, mk2());
+          const fresh = holders.map(([, h]) => h(T));
+          holders.forEach(([hn], i) => {
+            ctx.judged();
+            ctx.count("named_type_histories");
+            const got = [old[i].hash256(), old[i].hash()];
+            const want = [fresh[i].hash256(), fresh[i].hash()];
+            if (got[0] !== want[0] || got[1] !== want[1])
+              ctx.violation({ signature: `digest-depends-on-call-history|${got[0] !== want[0] ? "hash256" : "hash32"}|hashed-${early ? "before" : "after"}-override`, clause: "digest-is-a-function-of-the-structure", detail: `named type ${n1} overridden with ${n2}, holder ${hn}: the parser built before the override reports ${got[0].slice(0, 16)}.. / ${got[1]}, one built after it ${want[0].slice(0, 16)}.. / ${want[1]}`, replay: { kind: "note", text: `named ${n1} -> ${n2}, holder ${hn}, early=${early}` } });
+            // behaviour => digest across the override (witness values of the two bodies)
+            if (before && n1 !== n2) {
+              const acc1 = [w1, w2].map((v) => { try { return mk1().validate(v); } catch { return null; } });
+              const acc2 = [w1, w2].map((v) => { try { return mk2().validate(v); } catch { return null; } });
+              if (String(acc1) !== String(acc2) && before[i][0] === got[0])
+                ctx.violation({ signature: "override-changes-behaviour-but-not-digest", clause: "behaviour-implies-digest", detail: `named type ${n1} overridden with ${n2}, holder ${hn}: hash256 ${got[0].slice(0, 16)}.. before and after`, replay: { kind: "note", text: `named ${n1} -> ${n2}, holder ${hn}` } });
+            }
+          });
+        }
+  }
+
   // (a') injectivity of the string encoding, format-agnostic: strings that differ must reach the hasher
   // as different byte streams, and Const(s) / { [s]: null } built with b.* must get pairwise distinct
   // digests (they disagree on the value s / { [s]: null })
